@@ -1057,3 +1057,19 @@ impl<T: GseDecapMemory, C: CrcCalculator, MHEM: MandatoryHeaderExtensionManager>
         self.last_label
     }
 }
+
+/// Verification hook: run the extension header walker of the decapsulator on a byte string.
+/// Returns the extensions read, the final protocol type and the number of bytes walked, or
+/// `Err(true)` for an unknown mandatory extension and `Err(false)` for a truncated chain.
+#[cfg(feature = "verif-hooks")]
+pub fn verif_walk_extensions<MHEM: MandatoryHeaderExtensionManager>(
+    pdu: &[u8],
+    mandatory_extension_header_manager: &MHEM,
+    first_ext_id: u16,
+) -> Result<(Vec<Extension>, u16, usize), bool> {
+    match iterate_over_extension_header(pdu, mandatory_extension_header_manager, first_ext_id) {
+        Ok(status) => Ok((status.extensions, status.protocol_type, status.header_ext_len)),
+        Err(ExtensionHeaderError::UnknownMandatoryHeader) => Err(true),
+        Err(ExtensionHeaderError::BufferTooSmall) => Err(false),
+    }
+}
